@@ -118,6 +118,55 @@ theorem recvmsg_data (w w' : World) (req k : Nat) (bs : List UInt8) (fds : List 
     · omega
     · rw [← h3]
 
+/-- a `recvmsg` into a buffer of at least one byte that returns data returns at least one byte -/
+theorem recvmsg_data_ne_nil (w w' : World) (req k : Nat) (bs : List UInt8) (fds : List Nat)
+    (hreq : 0 < req) (h : recvmsg w req k = (.data bs fds, w')) : bs ≠ [] := by
+  obtain ⟨m, hm0, _, hmrest, hbs, _, _⟩ := recvmsg_data w w' req k bs fds hreq h
+  intro h0
+  have := congrArg List.length (hbs.symm.trans h0)
+  simp only [List.length_map, List.length_take, List.length_nil] at this
+  omega
+
+/-! ### `refill`: the early return, and no zero-length `recvmsg` -/
+
+/-- the buffer already holds everything it may hold: `Ok(())`, nothing reserved, nothing read -/
+theorem refill_full {st : State} {nd : Nat} (h : nd ≤ st.buf.length) (w : World) (k : Nat) :
+    refill st w nd k = (.readOk, st, w) := by
+  simp only [refill, if_pos h]
+
+/-- otherwise exactly one `recvmsg`, into `buf[filled..]` after the reservation -/
+theorem refill_read {st : State} {nd : Nat} (h : ¬ nd ≤ st.buf.length) (w : World) (k : Nat) :
+    refill st w nd k =
+      match recvmsg w ((reserve st nd).cap - st.buf.length) k with
+      | (.eagain, w') => (.timedOut, reserve st nd, w')
+      | (.data bytes fds, w') =>
+        if bytes.isEmpty then (.closed, reserve st nd, w')
+        else (.readOk, { reserve st nd with buf := st.buf ++ bytes, fds := st.fds ++ fds }, w') := by
+  simp only [refill, if_neg h]
+  rfl
+
+/-- every `recvmsg` issued by `refill` is handed a buffer of at least one byte (ANY state) -/
+theorem refill_request_pos (st : State) (nd : Nat) (h : ¬ nd ≤ st.buf.length) :
+    0 < (reserve st nd).cap - st.buf.length := by
+  simp only [reserve, maxGrowth]; omega
+
+/-- `refill` never reports `ConnectionClosed` (ANY state, ANY stream: the peer of the model does not hang up,
+    and a 0-byte answer needs a zero-length request) -/
+theorem refill_ne_closed (st : State) (w : World) (nd k : Nat) : (refill st w nd k).1 ≠ .closed := by
+  by_cases hfull : nd ≤ st.buf.length
+  · rw [refill_full hfull]; simp
+  · rw [refill_read hfull]
+    have hreq := refill_request_pos st nd hfull
+    cases hr : recvmsg w ((reserve st nd).cap - st.buf.length) k with
+    | mk ans w1 =>
+      cases ans with
+      | eagain => simp
+      | data bs fds =>
+        have hne := recvmsg_data_ne_nil _ _ _ _ _ _ hreq hr
+        cases bs with
+        | nil => exact absurd rfl hne
+        | cons _ _ => simp
+
 /-! ### the invariant -/
 
 /-- the frame being assembled (a dummy empty frame when the peer has nothing more to say) -/
@@ -187,11 +236,15 @@ theorem check_of_inv {todo : List Frame} {st : State} {w : World} (hI : Inv todo
 theorem refill_inv {todo : List Frame} {st st' : State} {w w' : World} {nd k : Nat} {r : Res}
     (hI : Inv todo st w) (hok : FramesOk todo) (hnd : nd ≤ max 16 (hd todo).bytes.length)
     (h : refill st w nd k = (r, st', w')) :
-    (r = .timedOut ∨ r = .readOk ∨ r = .closed) ∧
-    (r ≠ .closed → Inv todo st' w') ∧
+    (r = .timedOut ∨ r = .readOk) ∧
+    Inv todo st' w' ∧
     (r = .timedOut → st'.buf = st.buf ∧ st'.fds = st.fds ∧ w' = w) ∧
-    (r = .readOk → st.buf.length < st'.buf.length) ∧
-    (st.buf.length < nd → r ≠ .closed) := by
+    (r = .readOk → st.buf.length < st'.buf.length ∨ (nd ≤ st.buf.length ∧ st' = st ∧ w' = w)) := by
+  by_cases hfull : nd ≤ st.buf.length
+  · rw [refill_full hfull, Prod.mk.injEq, Prod.mk.injEq] at h
+    obtain ⟨rfl, rfl, rfl⟩ := h
+    exact ⟨Or.inr rfl, hI, by simp, fun _ => Or.inr ⟨hfull, rfl, rfl⟩⟩
+  have hreq := refill_request_pos st nd hfull
   have hcap' : (reserve st nd).cap ≤ max 16 (hd todo).bytes.length := by
     have := hI.cap; simp only [reserve]; omega
   have hlen' : st.buf.length ≤ (reserve st nd).cap := by
@@ -202,7 +255,7 @@ theorem refill_inv {todo : List Frame} {st st' : State} {w w' : World} {nd k : N
   have hfds' : (reserve st nd).fds = st.fds := rfl
   have hI1 : Inv todo (reserve st nd) w :=
     ⟨hI.le, hI.buf, hI.fds, hI.rest, hcap', hlen', hgrow'⟩
-  simp only [refill] at h
+  rw [refill_read hfull] at h
   cases hr : recvmsg w ((reserve st nd).cap - st.buf.length) k with
   | mk ans w1 =>
     rw [hr] at h
@@ -212,69 +265,55 @@ theorem refill_inv {todo : List Frame} {st st' : State} {w w' : World} {nd k : N
       obtain ⟨rfl, rfl, rfl⟩ := h
       have := recvmsg_eagain _ _ _ _ hr
       subst this
-      exact ⟨Or.inl rfl, fun _ => hI1, fun _ => ⟨rfl, rfl, rfl⟩, by simp, by simp⟩
+      exact ⟨Or.inl rfl, hI1, fun _ => ⟨rfl, rfl, rfl⟩, by simp⟩
     | data bs fds =>
       dsimp only at h
-      by_cases hreq : (reserve st nd).cap - st.buf.length = 0
-      · rw [hreq] at hr
-        have hb := recvmsg_zero _ _ _ _ _ hr
-        subst hb
-        simp only [List.isEmpty_nil, if_true, Prod.mk.injEq] at h
-        obtain ⟨rfl, rfl, rfl⟩ := h
-        refine ⟨Or.inr (Or.inr rfl), by simp, by simp, by simp, ?_⟩
-        intro hlt
-        simp only [reserve] at hreq
-        simp only [maxGrowth] at hreq
-        omega
-      · obtain ⟨m, hm0, hmreq, hmrest, hbs, hfds, hw1⟩ := recvmsg_data _ _ _ _ _ _ (by omega) hr
-        have hne : todo ≠ [] := by
-          intro h0; subst h0
-          have := hI.rest
-          simp [hd, cells, stream] at this
-          rw [this] at hmrest; simp at hmrest; omega
-        have hfo := hd_ok hok hne
-        obtain ⟨h16, _, _, hfdl⟩ := hfo
-        have hnm : st.buf.length + m ≤ (hd todo).bytes.length := by omega
-        have hbsne : bs ≠ [] := by
-          rw [hbs]; intro h0
-          have := congrArg List.length h0
-          simp only [List.length_map, List.length_take, List.length_nil] at this; omega
-        have hie : bs.isEmpty = false := by
-          cases bs with
-          | nil => exact absurd rfl hbsne
-          | cons _ _ => rfl
-        rw [hie] at h
-        simp only [Bool.false_eq_true, if_false, Prod.mk.injEq] at h
-        obtain ⟨rfl, rfl, rfl⟩ := h
-        -- what was read is a slice of the current frame
-        have htake : w.rest.take m = ((cells (hd todo)).drop st.buf.length).take m := by
-          rw [hI.rest, List.take_append_of_le_length]
+      obtain ⟨m, hm0, hmreq, hmrest, hbs, hfds, hw1⟩ := recvmsg_data _ _ _ _ _ _ hreq hr
+      have hne : todo ≠ [] := by
+        intro h0; subst h0
+        have := hI.rest
+        simp [hd, cells, stream] at this
+        rw [this] at hmrest; simp at hmrest; omega
+      have hfo := hd_ok hok hne
+      obtain ⟨h16, _, _, hfdl⟩ := hfo
+      have hnm : st.buf.length + m ≤ (hd todo).bytes.length := by omega
+      have hbsne : bs ≠ [] := recvmsg_data_ne_nil _ _ _ _ _ _ hreq hr
+      have hie : bs.isEmpty = false := by
+        cases bs with
+        | nil => exact absurd rfl hbsne
+        | cons _ _ => rfl
+      rw [hie] at h
+      simp only [Bool.false_eq_true, if_false, Prod.mk.injEq] at h
+      obtain ⟨rfl, rfl, rfl⟩ := h
+      -- what was read is a slice of the current frame
+      have htake : w.rest.take m = ((cells (hd todo)).drop st.buf.length).take m := by
+        rw [hI.rest, List.take_append_of_le_length]
+        rw [List.length_drop, cells_length]; omega
+      have hbytes : bs = ((hd todo).bytes.drop st.buf.length).take m := by
+        rw [hbs, htake, List.map_take, List.map_drop, cells_map_fst]
+      have hlen : (st.buf ++ bs).length = st.buf.length + m := by
+        rw [List.length_append, hbytes, List.length_take, List.length_drop]; omega
+      have hnew : st.buf ++ bs = (hd todo).bytes.take (st.buf.length + m) := by
+        rw [List.take_add, hbytes]; congr 1; exact hI.buf
+      refine ⟨Or.inr rfl, ?_, by simp, fun _ => Or.inl ?_⟩
+      · refine ⟨?_, ?_, ?_, ?_, hcap', ?_, ?_⟩
+        · simp only [hlen]; exact hnm
+        · simp only [hlen]; exact hnew
+        · simp only [hlen]
+          rw [if_neg (by omega), hfds, htake, cells_fds_slice, hI.fds]
+          by_cases hz : st.buf.length = 0
+          · rw [if_pos hz, if_pos]
+            · simp only [List.nil_append]
+              exact List.take_of_length_le hfdl
+            · refine ⟨hz, hm0, ?_⟩
+              intro h0; rw [h0] at h16; simp at h16
+          · rw [if_neg hz, if_neg (by intro hh; exact hz hh.1)]; simp
+        · simp only [hlen]
+          rw [hw1, hI.rest, List.drop_append_of_le_length, List.drop_drop]
           rw [List.length_drop, cells_length]; omega
-        have hbytes : bs = ((hd todo).bytes.drop st.buf.length).take m := by
-          rw [hbs, htake, List.map_take, List.map_drop, cells_map_fst]
-        have hlen : (st.buf ++ bs).length = st.buf.length + m := by
-          rw [List.length_append, hbytes, List.length_take, List.length_drop]; omega
-        have hnew : st.buf ++ bs = (hd todo).bytes.take (st.buf.length + m) := by
-          rw [List.take_add, hbytes]; congr 1; exact hI.buf
-        refine ⟨Or.inr (Or.inl rfl), fun _ => ?_, by simp, fun _ => ?_, by simp⟩
-        · refine ⟨?_, ?_, ?_, ?_, hcap', ?_, ?_⟩
-          · simp only [hlen]; exact hnm
-          · simp only [hlen]; exact hnew
-          · simp only [hlen]
-            rw [if_neg (by omega), hfds, htake, cells_fds_slice, hI.fds]
-            by_cases hz : st.buf.length = 0
-            · rw [if_pos hz, if_pos]
-              · simp only [List.nil_append]
-                exact List.take_of_length_le hfdl
-              · refine ⟨hz, hm0, ?_⟩
-                intro h0; rw [h0] at h16; simp at h16
-            · rw [if_neg hz, if_neg (by intro hh; exact hz hh.1)]; simp
-          · simp only [hlen]
-            rw [hw1, hI.rest, List.drop_append_of_le_length, List.drop_drop]
-            rw [List.length_drop, cells_length]; omega
-          · simp only [hlen]; omega
-          · simp only [hlen]; generalize maxGrowth = G at hgrow' ⊢; omega
         · simp only [hlen]; omega
+        · simp only [hlen]; generalize maxGrowth = G at hgrow' ⊢; omega
+      · simp only [hlen]; omega
 
 theorem check_buf_eq {st st' : State} (h : st'.buf = st.buf) : check st' = check st := by
   unfold check; rw [h]
@@ -286,9 +325,29 @@ theorem arrive_inv {todo : List Frame} {st : State} {w : World} (hI : Inv todo s
     Inv todo st (w.arrive n) :=
   ⟨hI.le, hI.buf, hI.fds, hI.rest, hI.cap, hI.lenCap, hI.grow⟩
 
-theorem refill_k0 (st : State) (w : World) (nd : Nat) :
+/-- nothing happens during the call: EAGAIN - unless the buffer is already full for this request -/
+theorem refill_k0 {st : State} {nd : Nat} (h : st.buf.length < nd) (w : World) :
     refill st w nd 0 = (.timedOut, reserve st nd, w) := by
-  simp [refill, recvmsg]
+  rw [refill_read (by omega)]
+  simp [recvmsg]
+
+/-- `check` asks for more only when the buffer is shorter than what it asks for (ANY state) -/
+theorem check_need_lt {st : State} {nd : Nat} (h : check st = .need nd) : st.buf.length < nd := by
+  unfold check at h
+  by_cases h16 : st.buf.length < 16
+  · rw [if_pos h16] at h
+    simp only [Check.need.injEq] at h
+    omega
+  · rw [if_neg h16] at h
+    cases hb : bytesNeeded st.buf with
+    | bytes n =>
+      rw [hb] at h
+      dsimp only at h
+      split at h
+      · simp at h
+      · simp only [Check.need.injEq] at h; omega
+    | tooLong => rw [hb] at h; simp at h
+    | invalid => rw [hb] at h; simp at h
 
 theorem stream_hd_tail (l : List Frame) : stream l = cells (hd l) ++ stream l.tail := by
   cases l with
@@ -330,11 +389,12 @@ theorem readWhole_inv {todo : List Frame} (hok : FramesOk todo) :
       obtain ⟨rfl, rfl, rfl⟩ := h
       exact ⟨hI, fun _ => hc, Or.inl rfl, by simp⟩
     · rw [if_neg hw] at hc
+      have hlt := check_need_lt hc
       rw [hc] at h
-      simp only [refill_k0, Prod.mk.injEq] at h
+      simp only [refill_k0 hlt, Prod.mk.injEq] at h
       obtain ⟨rfl, rfl, rfl⟩ := h
-      have := refill_inv hI hok (need_le todo st) (refill_k0 st w _)
-      exact ⟨this.2.1 (by simp), by simp, Or.inr rfl, fun _ => by rw [check_reserve, hc]; simp⟩
+      have := refill_inv hI hok (need_le todo st) (refill_k0 hlt w)
+      exact ⟨this.2.1, by simp, Or.inr rfl, fun _ => by rw [check_reserve, hc]; simp⟩
   | cons e evs ih =>
     intro st w hI r st' w' h
     have hc := check_of_inv hI hok
@@ -345,23 +405,16 @@ theorem readWhole_inv {todo : List Frame} (hok : FramesOk todo) :
         obtain ⟨rfl, rfl, rfl⟩ := h
         exact ⟨hI, fun _ => hc, Or.inl rfl, by simp⟩
     · rw [if_neg hw] at hc
-      have hlt : st.buf.length < (if st.buf.length < 16 then 16 else (hd todo).bytes.length) := by
-        have := hI.le
-        split
-        · assumption
-        · by_cases hne : todo = []
-          · subst hne; rw [hd_nil_len] at this; omega
-          · have : st.buf.length ≠ (hd todo).bytes.length := fun hh => hw ⟨hh, hne⟩
-            omega
+      have hlt := check_need_lt hc
       cases e with
       | arrive a =>
         simp only [readWhole, hc] at h
         exact ih st (w.arrive a) (arrive_inv hI a) r st' w' h
       | wouldBlock =>
-        simp only [readWhole, hc, refill_k0, Prod.mk.injEq] at h
+        simp only [readWhole, hc, refill_k0 hlt, Prod.mk.injEq] at h
         obtain ⟨rfl, rfl, rfl⟩ := h
-        have := refill_inv hI hok (need_le todo st) (refill_k0 st w _)
-        exact ⟨this.2.1 (by simp), by simp, Or.inr rfl, fun _ => by rw [check_reserve, hc]; simp⟩
+        have := refill_inv hI hok (need_le todo st) (refill_k0 hlt w)
+        exact ⟨this.2.1, by simp, Or.inr rfl, fun _ => by rw [check_reserve, hc]; simp⟩
       | deliver k =>
         simp only [readWhole, hc] at h
         cases hrf : refill st w (if st.buf.length < 16 then 16 else (hd todo).bytes.length) k with
@@ -369,15 +422,14 @@ theorem readWhole_inv {todo : List Frame} (hok : FramesOk todo) :
           cases p with
           | mk st1 w1 =>
             rw [hrf] at h
-            obtain ⟨hcls, hinv, hto, _, hncl⟩ := refill_inv hI hok (need_le todo st) hrf
-            rcases hcls with rfl | rfl | rfl
+            obtain ⟨hcls, hinv, hto, _⟩ := refill_inv hI hok (need_le todo st) hrf
+            rcases hcls with rfl | rfl
             · simp only [Prod.mk.injEq] at h
               obtain ⟨rfl, rfl, rfl⟩ := h
-              refine ⟨hinv (by simp), by simp, Or.inr rfl, fun _ => ?_⟩
+              refine ⟨hinv, by simp, Or.inr rfl, fun _ => ?_⟩
               rw [check_buf_eq (hto rfl).1, hc]; simp
             · simp only at h
-              exact ih st1 w1 (hinv (by simp)) r st' w' h
-            · exact absurd rfl (hncl hlt)
+              exact ih st1 w1 hinv r st' w' h
 
 theorem getNext_inv {todo : List Frame} {st st' : State} {w w' : World} {evs : List Ev} {r : Res}
     (hI : Inv todo st w) (hok : FramesOk todo) (h : getNext st w evs = (r, st', w')) :
@@ -435,19 +487,57 @@ theorem getNext_inv {todo : List Frame} {st st' : State} {w w' : World} {evs : L
         obtain ⟨rfl, rfl, rfl⟩ := h
         exact ⟨todo, hI1, hok, by simp [msgs], rfl⟩
 
+/-- what the peer makes arrive during one `recvmsg` of `read_once` before the kernel answers -/
+def arrivals : List Ev → Nat
+  | [] => 0
+  | .arrive n :: evs => n + arrivals evs
+  | .wouldBlock :: _ => 0
+  | .deliver _ :: _ => 0
+
+theorem arrive_arrive (w : World) (a b : Nat) : (w.arrive a).arrive b = w.arrive (a + b) := by
+  simp only [World.arrive, Nat.add_assoc]
+
+theorem arrive_zero (w : World) : w.arrive 0 = w := by
+  simp only [World.arrive, Nat.add_zero]
+
+/-- `refill_buffer` on a buffer that is already full for the request: whatever happens meanwhile, nothing
+    is read and nothing changes (ANY state, ANY stream) -/
+theorem recvWith_full {nd : Nat} : ∀ (evs : List Ev) (st : State) (w : World), nd ≤ st.buf.length →
+    recvWith st w nd evs = (.readOk, st, w.arrive (arrivals evs)) := by
+  intro evs
+  induction evs with
+  | nil => intro st w h; simp only [recvWith, refill_full h, arrivals, arrive_zero]
+  | cons e evs ih =>
+    intro st w h
+    cases e with
+    | arrive a => simp only [recvWith, arrivals]; rw [ih st _ h, arrive_arrive]
+    | wouldBlock => simp only [recvWith, refill_full h, arrivals, arrive_zero]
+    | deliver k => simp only [recvWith, refill_full h, arrivals, arrive_zero]
+
+theorem recvWith_ne_closed {nd : Nat} : ∀ (evs : List Ev) (st : State) (w : World),
+    (recvWith st w nd evs).1 ≠ .closed := by
+  intro evs
+  induction evs with
+  | nil => intro st w; simp only [recvWith]; exact refill_ne_closed _ _ _ _
+  | cons e evs ih =>
+    intro st w
+    cases e with
+    | arrive a => simp only [recvWith]; exact ih st _
+    | wouldBlock => simp only [recvWith]; exact refill_ne_closed _ _ _ _
+    | deliver k => simp only [recvWith]; exact refill_ne_closed _ _ _ _
+
 theorem recvWith_inv {todo : List Frame} (hok : FramesOk todo) {nd : Nat}
     (hnd : nd ≤ max 16 (hd todo).bytes.length) :
     ∀ (evs : List Ev) (st : State) (w : World), Inv todo st w →
     ∀ r st' w', recvWith st w nd evs = (r, st', w') →
-      (r = .timedOut ∨ r = .readOk ∨ r = .closed) ∧ (r ≠ .closed → Inv todo st' w') ∧
-      (st.buf.length < nd → r ≠ .closed) := by
+      (r = .timedOut ∨ r = .readOk) ∧ Inv todo st' w' := by
   intro evs
   induction evs with
   | nil =>
     intro st w hI r st' w' h
     simp only [recvWith] at h
-    obtain ⟨h1, h2, _, _, h5⟩ := refill_inv hI hok hnd h
-    exact ⟨h1, h2, h5⟩
+    obtain ⟨h1, h2, _, _⟩ := refill_inv hI hok hnd h
+    exact ⟨h1, h2⟩
   | cons e evs ih =>
     intro st w hI r st' w' h
     cases e with
@@ -456,51 +546,31 @@ theorem recvWith_inv {todo : List Frame} (hok : FramesOk todo) {nd : Nat}
       exact ih st (w.arrive a) (arrive_inv hI a) r st' w' h
     | wouldBlock =>
       simp only [recvWith] at h
-      obtain ⟨h1, h2, _, _, h5⟩ := refill_inv hI hok hnd h
-      exact ⟨h1, h2, h5⟩
+      obtain ⟨h1, h2, _, _⟩ := refill_inv hI hok hnd h
+      exact ⟨h1, h2⟩
     | deliver k =>
       simp only [recvWith] at h
-      obtain ⟨h1, h2, _, _, h5⟩ := refill_inv hI hok hnd h
-      exact ⟨h1, h2, h5⟩
+      obtain ⟨h1, h2, _, _⟩ := refill_inv hI hok hnd h
+      exact ⟨h1, h2⟩
 
 theorem readOnce_inv {todo : List Frame} {st st' : State} {w w' : World} {evs : List Ev} {r : Res}
     (hI : Inv todo st w) (hok : FramesOk todo) (h : readOnce st w evs = (r, st', w')) :
-    (r = .timedOut ∨ r = .readOk ∨ r = .closed) ∧ (r ≠ .closed → Inv todo st' w') ∧
-    (check st ≠ .whole → r ≠ .closed) := by
+    (r = .timedOut ∨ r = .readOk) ∧ Inv todo st' w' := by
   simp only [readOnce, needed_of_inv hI hok] at h
-  obtain ⟨h1, h2, h3⟩ := recvWith_inv hok (need_le todo st) evs st w hI r st' w' h
-  refine ⟨h1, h2, fun hnw => h3 ?_⟩
-  rw [check_of_inv hI hok] at hnw
-  by_cases hw : st.buf.length = (hd todo).bytes.length ∧ todo ≠ []
-  · rw [if_pos hw] at hnw; exact absurd rfl hnw
-  · have := hI.le
-    split
-    · assumption
-    · by_cases hne : todo = []
-      · subst hne; rw [hd_nil_len] at this; omega
-      · have : st.buf.length ≠ (hd todo).bytes.length := fun hh => hw ⟨hh, hne⟩
-        omega
+  exact recvWith_inv hok (need_le todo st) evs st w hI r st' w' h
 
+/-- every call keeps the invariant and produces a good result: no call can fail - in particular none can
+    report `ConnectionClosed` - on a stream of well-formed frames -/
 theorem step_inv {todo : List Frame} {st st' : State} {w w' : World} {c : Call} {evs : List Ev} {r : Res}
     (hI : Inv todo st w) (hok : FramesOk todo) (h : step c st w evs = (r, st', w')) :
-    (r = .closed → c = .readOnce ∧ check st = .whole) ∧
-    (r ≠ .closed → ∃ todo', Inv todo' st' w' ∧ FramesOk todo' ∧ todo = msgs [r] ++ todo' ∧ r.good = true) := by
+    ∃ todo', Inv todo' st' w' ∧ FramesOk todo' ∧ todo = msgs [r] ++ todo' ∧ r.good = true := by
   cases c with
-  | getNext =>
-    obtain ⟨todo', h1, h2, h3, h4⟩ := getNext_inv hI hok h
-    refine ⟨?_, fun _ => ⟨todo', h1, h2, h3, h4⟩⟩
-    intro hc; subst hc; simp [Res.good] at h4
+  | getNext => exact getNext_inv hI hok h
   | readOnce =>
-    obtain ⟨h1, h2, h3⟩ := readOnce_inv hI hok h
-    refine ⟨fun hc => ⟨rfl, ?_⟩, fun hnc => ⟨todo, h2 hnc, hok, ?_, ?_⟩⟩
-    · by_cases hw : check st = .whole
-      · exact hw
-      · exact absurd hc (h3 hw)
-    · rcases h1 with rfl | rfl | rfl <;> simp [msgs]
-    · rcases h1 with rfl | rfl | rfl
-      · rfl
-      · rfl
-      · exact absurd rfl hnc
+    obtain ⟨h1, h2⟩ := readOnce_inv hI hok h
+    refine ⟨todo, h2, hok, ?_, ?_⟩
+    · rcases h1 with rfl | rfl <;> simp [msgs]
+    · rcases h1 with rfl | rfl <;> rfl
   | readMore =>
     simp only [step, readMore] at h
     cases hc : check st with
@@ -508,7 +578,7 @@ theorem step_inv {todo : List Frame} {st st' : State} {w w' : World} {c : Call} 
       rw [hc] at h
       simp only [Prod.mk.injEq] at h
       obtain ⟨rfl, rfl, rfl⟩ := h
-      exact ⟨by simp, fun _ => ⟨todo, hI, hok, by simp [msgs], rfl⟩⟩
+      exact ⟨todo, hI, hok, by simp [msgs], rfl⟩
     | err e =>
       have := check_of_inv hI hok
       rw [hc] at this
@@ -516,12 +586,93 @@ theorem step_inv {todo : List Frame} {st st' : State} {w w' : World} {c : Call} 
     | need n =>
       rw [hc] at h
       simp only at h
-      obtain ⟨h1, h2, h3⟩ := readOnce_inv hI hok h
-      have hnc : r ≠ .closed := h3 (by rw [hc]; simp)
-      refine ⟨fun hcl => absurd hcl hnc, fun _ => ⟨todo, h2 hnc, hok, ?_, ?_⟩⟩
-      · rcases h1 with rfl | rfl | rfl <;> simp [msgs]
-      · rcases h1 with rfl | rfl | rfl
-        · rfl
-        · rfl
-        · exact absurd rfl hnc
+      obtain ⟨h1, h2⟩ := readOnce_inv hI hok h
+      refine ⟨todo, h2, hok, ?_, ?_⟩
+      · rcases h1 with rfl | rfl <;> simp [msgs]
+      · rcases h1 with rfl | rfl <;> rfl
+
+/-! ### `ConnectionClosed` is never reported (ANY state, ANY stream - also malformed ones) -/
+
+theorem check_err {st : State} {e : Res} (h : check st = .err e) : e = .tooLong ∨ e = .invalid := by
+  unfold check at h
+  split at h
+  · simp at h
+  · split at h
+    · split at h <;> simp at h
+    · simp only [Check.err.injEq] at h; exact Or.inl h.symm
+    · simp only [Check.err.injEq] at h; exact Or.inr h.symm
+
+theorem readWhole_ne_closed : ∀ (evs : List Ev) (st : State) (w : World),
+    (readWhole st w evs).1 ≠ .closed := by
+  intro evs
+  induction evs with
+  | nil =>
+    intro st w
+    simp only [readWhole]
+    cases hc : check st with
+    | whole => simp
+    | err e => rcases check_err hc with rfl | rfl <;> simp
+    | need n => exact refill_ne_closed _ _ _ _
+  | cons e evs ih =>
+    intro st w
+    cases hc : check st with
+    | whole => cases e <;> simp [readWhole, hc]
+    | err x => rcases check_err hc with rfl | rfl <;> cases e <;> simp [readWhole, hc]
+    | need n =>
+      cases e with
+      | arrive a => simp only [readWhole, hc]; exact ih st _
+      | wouldBlock => simp only [readWhole, hc]; exact refill_ne_closed _ _ _ _
+      | deliver k =>
+        simp only [readWhole, hc]
+        have hrf := refill_ne_closed st w n k
+        cases hx : refill st w n k with
+        | mk r1 p =>
+          cases p with
+          | mk st1 w1 =>
+            rw [hx] at hrf
+            cases r1 with
+            | readOk => exact ih st1 w1
+            | closed => exact absurd rfl hrf
+            | _ => simp
+
+theorem step_ne_closed (c : Call) (st : State) (w : World) (evs : List Ev) :
+    (step c st w evs).1 ≠ .closed := by
+  cases c with
+  | readOnce =>
+    simp only [step, readOnce]
+    cases hb : bytesNeeded st.buf with
+    | bytes n => exact recvWith_ne_closed evs st w
+    | tooLong => simp
+    | invalid => simp
+  | readMore =>
+    simp only [step, readMore]
+    cases hc : check st with
+    | whole => simp
+    | err e => rcases check_err hc with rfl | rfl <;> simp
+    | need n =>
+      simp only [readOnce]
+      cases hb : bytesNeeded st.buf with
+      | bytes n => exact recvWith_ne_closed evs st w
+      | tooLong => simp
+      | invalid => simp
+  | getNext =>
+    simp only [step, getNext]
+    have hrw := readWhole_ne_closed evs st w
+    cases hx : readWhole st w evs with
+    | mk r1 p =>
+      cases p with
+      | mk st1 w1 =>
+        rw [hx] at hrw
+        cases r1 with
+        | closed => exact absurd rfl hrw
+        | readOk =>
+          dsimp only
+          cases decodeHeader st1.buf with
+          | none => simp
+          | some _ =>
+            dsimp only
+            cases decodeMessage st1.buf with
+            | none => simp
+            | some _ => simp
+        | _ => simp
 end Rustbus.Recv
